@@ -101,6 +101,14 @@ def gen_c11(tier, rng):
                     chain.append("set %s %d" % (f[0], v))
                 ops.append("fld %s %s %s" % (cname, bg.hex(), " ".join(chain)))
             cases.append(Case("c11c", ops, nontrivial=True, tags=(cname, "chain"), meta={"cls": cname}))
+    # header fields that only a builder writes (CAN / CAN-FD data length + DLC, LIN and Ethernet data length, analog sample block): set
+    # through setData on fresh objects, on objects built from received bytes and on objects that held other data; the field must
+    # read back and nothing else of the header may change (the C13 cases of those classes, judged by the same layout predicate)
+    from . import gen_bld
+    for c in gen_bld.gen_c13(tier, rng):
+        if c.meta.get("kind") in ("can", "canfd", "lin", "eth", "analog") and "chain" not in c.tags:
+            c.tags = tuple(c.tags) + ("length-fields",)
+            cases.append(c)
     return cases
 
 
@@ -122,6 +130,9 @@ def pred_c11(case, impl, model, ctx):
     are bg with exactly the written fields replaced, and every getter reads the table's field of those bytes"""
     cname = case.meta.get("cls")
     if cname is None:
+        if case.meta.get("kind") is not None and "length-fields" in case.tags:
+            from . import gen_bld
+            return gen_bld.pred_c13(case, impl, model, ctx)
         return None
     fields = {f[0]: f for f in layout.CLASSES[cname][4]}
     for o, l in zip(case.ops, impl):
